@@ -332,6 +332,8 @@ def gated_app(ops: List[Any], end: str = "disc") -> List[Any]:
         prog.append(["return"])
     elif end == "raise":
         prog.append(["raise"])
+    elif end == "cancel":
+        prog.append(["cancel"])
     return prog
 
 
@@ -380,6 +382,7 @@ def gen_faults(tier: str, rng: random.Random, focus: str = "c03") -> Iterator[Di
         for cut in range(0, nops + 1):
             ends.append(("return", cut))
             ends.append(("raise", cut))
+            ends.append(("cancel", cut))
         for end, cut in ends:
             if tier == "quick" and end != "disc" and focus == "c07" and cut not in (0, nops):
                 continue
